@@ -1,2 +1,8 @@
 import LyModel.Props.C11
-#print axioms LyModel.Props.C11.placeholder
+#print axioms LyModel.Props.C11.iff_compile_correct_fails
+#print axioms LyModel.Props.C11.iff_compile_correct_partial
+#print axioms LyModel.Props.C11.iff_compile_sound
+#print axioms LyModel.Props.C11.iff_rejects_ungrammatical_fails
+#print axioms LyModel.Props.C11.iff_rejects_ungrammatical_partial
+#print axioms LyModel.Props.C11.iff_getop_setop
+#print axioms LyModel.Props.C11.iff_pack_readback
